@@ -617,6 +617,20 @@ func main() {
 	run.Rule = "one case = (table of a 3-table catalogue, 3-10 random rows incl. NULLs, 2-7 callers with filters over 1-3 column sets of the case and values taken from the rows: 62% the column's exact Go type, 16% pointer to it, 22% another Go type denoting the same column value; empty filters 6%, repeated filters 12%; each caller uses Query 70% / QueryRow 15% / FullScanQuery 15% and in 30% SelectOptions from a catalogue of Limit, OrderBy, AllowNoIndex, ForUpdate, index hints, free-text Where and combinations); every call is made on its own and as one of the concurrent callers on a batching context; non-trivial = at least two callers were combined into one statement and some caller received at least one row; distinct by JSON of the case"
 	r := vh.NewRng(o.Seed)
 
+	// Which batch function does the tree under test have: the one that hands a row to every query the matcher
+	// associates it with, or the repaired one (patches/C10-fix-2.patch) that asks the row tester first?  The
+	// model, the premise of the theorems and the oracle's known class follow the tree.
+	fixed, perr := sqlh.MatcherAsksTester()
+	if perr != nil {
+		run.Fail(-1, "c10-harness-cannot-run", "probe of the batch function: "+perr.Error(), nil)
+	}
+	sqlh.Fixed = fixed
+	if fixed {
+		run.Hist("tree: batch function asks the row tester (C10-fix-2 applied)")
+	} else {
+		run.Hist("tree: batch function hands over whatever the matcher associates (C10-fix-2 not applied)")
+	}
+
 	var cases []Case
 	searching := o.Search != ""
 	if searching {
@@ -711,6 +725,25 @@ func main() {
 			if sameResult(res.single[i], res.batched[i]) {
 				continue
 			}
+			if fixed && c.caller(i).effectiveOpts() == nil && c.caller(i).Kind != "queryrow" {
+				// the repaired batch function never hands a caller a row its own query does not select --
+				// whatever the Go types of the filter values (Props/C10.v c10_repaired_never_hands_foreign_rows)
+				own := map[int]bool{}
+				for _, k := range res.single[i].Rows {
+					own[k] = true
+				}
+				foreign := false
+				for _, k := range res.batched[i].Rows {
+					if !own[k] {
+						foreign = true
+					}
+				}
+				if foreign {
+					fj, _ := json.Marshal(f)
+					run.Fail(idx, "c10-batched-caller-received-foreign-row", fmt.Sprintf("caller %d filter %s: alone %+v, with batching %+v", i, fj, res.single[i], res.batched[i]), c)
+					continue
+				}
+			}
 			sig := "c10-batched-rows-differ"
 			null := false
 			for k, v := range f {
@@ -778,6 +811,8 @@ func main() {
 			case sameResult(res.single[0], res.batched[0]):
 				fj, _ := json.Marshal(c.Filters[0])
 				run.Fail(idx, "c10-necessity-witness-does-not-separate", fmt.Sprintf("filter %s is outside filter_transparent, yet on its witness row it got %+v alone and %+v with batching", fj, res.single[0], res.batched[0]), c)
+			case len(res.batched[0].Rows) > len(res.single[0].Rows) && fixed:
+				run.Fail(idx, "c10-batched-caller-received-foreign-row", "necessity witness on a tree with C10-fix-2", c)
 			case len(res.batched[0].Rows) > len(res.single[0].Rows):
 				run.Hist("necessity-witness:separates (batched caller received a row its own query does not select)")
 			default:
@@ -918,8 +953,8 @@ func main() {
 			_, tr := sqlh.Transparent(t, f)
 			flags[i] = vh.CoqBool(tr)
 		}
-		terms = append(terms, fmt.Sprintf("(%d, mk_c10 %s %s %s %s %s %s %s %s %s %s)", idx, t.Coq(), vh.CoqList(fs), vh.CoqList(cls),
-			sqlh.CoqArrival(res.arrival), vh.CoqList(rows), bev, coqResults(res.batched), sev, coqResults(res.single), vh.CoqList(flags)))
+		terms = append(terms, fmt.Sprintf("(%d, mk_c10 %s %s %s %s %s %s %s %s %s %s %s)", idx, t.Coq(), vh.CoqList(fs), vh.CoqList(cls),
+			sqlh.CoqArrival(res.arrival), vh.CoqList(rows), bev, coqResults(res.batched), sev, coqResults(res.single), vh.CoqList(flags), vh.CoqBool(fixed)))
 		if len(terms) >= shard {
 			flush()
 		}
